@@ -155,6 +155,24 @@ def outs (tids : List Nat) (recs : List Rec) : List Out :=
   let r := replay RS.init recs
   r.2 ++ tails r.1 tids
 
+/-! ## scheduling events in `dump --chrome / --flame-graph / --graphviz / --mermaid`
+
+`dump_replay_event` (cmds/dump.c:1662) hands the perf scheduling events of a task to
+`ops->task_rstack` "as if functions": sched-out opens a call named linux:schedule, sched-in closes
+it.  The time accounting (`fstack`) does the same for a sched-out of a PRE-EMPTED task
+(EVENT_ID_PERF_SCHED_OUT_PREEMPT) — but `dump_replay_event` as it is lets only SCHED_IN and SCHED_OUT
+through: the entry of a pre-empted schedule never reaches the dump callbacks while its sched-in does
+(finding C15-DUMP-PREEMPT).  In the model a scheduling event is a record like any other (so the repaired
+code is covered by the theorems about records); a name for which `isPre` holds marks the entry the
+callbacks do not get as it is. -/
+
+/-- what the dump callbacks get as it is: everything but the entries of pre-empted schedules -/
+def dropEntries (isPre : Name → Bool) (os : List Out) : List Out :=
+  os.filter fun o => !(o.entry && isPre o.name)
+
+/-- the marker the driver puts at the end of such a name (no symbol name holds a NUL) -/
+def isPreMark (n : Name) : Bool := n.getLast? == some 0
+
 /-! ## graph_add_node -/
 
 structure G where
@@ -262,6 +280,32 @@ def mermaidEdges (root : Node) : List Nat :=
 def sumTime : Nodes → Nat
   | .nil => 0
   | .cons n rest => n.time + sumTime rest
+
+/-! ## `print_time_unit` (utils/debug.c:279): how `uftrace graph` shows a time -/
+
+/-- the `limit[]` table without its INT_MAX terminator.  `fixed`: sixty minutes make an hour;
+    the table as it is has 24 in that place (finding C15-TIMEUNIT). -/
+def tuLimits (fixed : Bool) : List Nat := [1000, 1000, 1000, 60, if fixed then 60 else 24]
+
+/-- `for (idx = 0; …) { small = delta % limit[idx]; delta /= limit[idx]; if (delta < limit[idx + 1]) break; }`
+    — (delta, delta_small, idx).  The last comparison is with INT_MAX (true for every time below 2^63 ns). -/
+def tuLoop : List Nat → Nat → Nat → Nat × Nat × Nat
+  | [], idx, d => (d, 0, idx)
+  | [l], idx, d => (d / l, d % l, idx)
+  | l :: l2 :: r, idx, d =>
+    if d / l < l2 then (d / l, d % l, idx) else tuLoop (l2 :: r) (idx + 1) (d / l)
+
+/-- what `"%3lu.%03lu %s"` is given for a non-zero time: whole part, three-digit part and the unit
+    (0 us, 1 ms, 2 s, 3 m, 4 h); `if (delta > 999) delta = delta_small = 999;` -/
+def timeUnit (fixed : Bool) (ns : Nat) : Nat × Nat × Nat :=
+  let r := tuLoop (tuLimits fixed) 0 ns
+  if 999 < r.1 then (999, 999, r.2.2) else r
+
+/-- nanoseconds in one unit, and in one step of the three-digit part (ns, us, ms, seconds, minutes) -/
+def unitNs : Nat → Nat
+  | 0 => 1000 | 1 => 1000000 | 2 => 1000000000 | 3 => 60000000000 | _ => 3600000000000
+def subNs : Nat → Nat
+  | 0 => 1 | 1 => 1000 | 2 => 1000000 | 3 => 1000000000 | _ => 60000000000
 
 /-! ## the specification side: call paths of a record sequence -/
 
